@@ -18,6 +18,9 @@ func vIxKeys(id int) []string {
 	if id == 12 || id == 13 {
 		return vLenDiverse(id - 12)
 	}
+	if id == 17 || id == 18 {
+		return vFullByteFan(id == 18)
+	}
 	if id >= 100 {
 		return vSweep(id - 100)
 	}
@@ -33,6 +36,22 @@ func vIxKeys(id int) []string {
 	return vUniqSorted(ks)
 }
 
+
+// vFullByteFan: the 256 one-byte keys 0x00..0xff, two of them extended (so the root is not the
+// only inner node), optionally with the empty key.
+func vFullByteFan(withEmpty bool) []string {
+	var ks []string
+	if withEmpty {
+		ks = append(ks, "")
+	}
+	for b := 0; b < 256; b++ {
+		ks = append(ks, string([]byte{byte(b)}))
+		if b == 0x7f || b == 0xff {
+			ks = append(ks, string([]byte{byte(b), 0x00}), string([]byte{byte(b), 0xff}))
+		}
+	}
+	return ks
+}
 
 // vLenDiverse: keys whose lengths sit on and around 32/64/128/256-byte boundaries: a chain
 // of prefixes of one 300-byte pattern (lengths 0, 1, 31, 32, 33, 63, 64, 65, 127, 128, 129,
